@@ -33,6 +33,11 @@ CORPUS = os.path.join(ROOT, "corpus")
 WORK = os.environ.get("VERIF_WORK_DIR") or os.path.join(ROOT, ".work")
 HARNESS_TARGET = os.environ.get("CARGO_TARGET_DIR") or os.path.join(HARNESS, "target")
 NCPU = min(16, os.cpu_count() or 4)
+# speed of a check that FAILS (see run_stream / shrink_case): minimisation is bounded in wall-clock time, and once a violation has
+# been reported the streams that follow run on a sample
+SHRINK_WALL_S = 60.0
+SHRINK_WALL_TOTAL_S = 150.0
+AFTER_VIOLATION_CASES = 4000
 
 ENV = dict(os.environ)
 ENV.setdefault("CARGO_NET_OFFLINE", "true")
@@ -426,6 +431,7 @@ class Ctx:
         self.rng = random.Random(seed)
         self.t0 = time.time()
         self.violations = []      # (kind, replay_path, suffix, description)
+        self.shrink_wall_left = SHRINK_WALL_TOTAL_S   # wall-clock budget of this run for minimising failing cases
         self.known_hits = []
         self.cov = {}
         self.impl_bin = None
@@ -488,7 +494,9 @@ class Ctx:
         budget = getattr(st, "shrink_budget", budget)
         cur = case
         improved = True
-        while improved and budget > 0:
+        t_end = time.time() + max(0.0, min(SHRINK_WALL_S, self.shrink_wall_left))
+        t_start = time.time()
+        while improved and budget > 0 and time.time() < t_end:
             improved = False
             cands = []
             for c in st.shrink(cur):
@@ -505,6 +513,7 @@ class Ctx:
                     cur = c
                     improved = True
                     break
+        self.shrink_wall_left -= time.time() - t_start
         return cur
 
     def probe_for_failing_input(self, st, mism, info):
@@ -552,8 +561,16 @@ class Ctx:
         corpus = load_corpus(self.pid, st.name)
         if getattr(st, "prepare", None):
             corpus = [st.prepare(c) for c in corpus]     # e.g. re-annotate a scenario with the current model's expectations
-        cases = corpus + list(st.cases)
-        n_corpus = len(cases) - len(st.cases)
+        own = list(st.cases)
+        if self.violations and len(own) > AFTER_VIOLATION_CASES and not os.environ.get("VP_FULL_AFTER_VIOLATION"):
+            # The verdict of this run is settled already (a violation has been reported): the remaining streams are still run, to
+            # find other classes of failure, but on an evenly spaced sample — a tree that breaks the property often makes every
+            # case slow (huge traces, time-outs), and a check that needs an hour to say "violated" is of no use.
+            step = len(own) / float(AFTER_VIOLATION_CASES)
+            own = [own[int(k * step)] for k in range(AFTER_VIOLATION_CASES)]
+            self.cov.setdefault("reduced_after_violation", []).append(st.name)
+        cases = corpus + own
+        n_corpus = len(cases) - len(own)
         t0 = time.time()
         impl, model = self.run_both(st, cases)
         nontriv = set()
